@@ -1,4 +1,5 @@
 import Tickit.Proof.RBSpec
+import Tickit.Proof.RBUtf8
 /-
   C03 — render-buffer cells follow last-writer-wins under clip, mask and translation.
 
@@ -365,6 +366,23 @@ theorem save_goto_restore_cursor :
 
 /-- Non-vacuity: a balanced program with a nested pair, cursor moved and unset in between. -/
 example : Balanced [.goto 1 1, .save, .ungoto, .translate 1 1, .restore, .mask ⟨0, 0, 1, 1⟩, .eraseAt 0 0 3] := rfl
+
+/-! ### the text widths are C07's -/
+
+/-- The width function the render-buffer model uses is the verified one of C07 (`Width.wcwidth`), hence equal
+    to the search-free reading of the tables (`Props.C07.wcwidth_eq_spec`). -/
+theorem width_is_c07 (cp : Nat) : RB.Utf8.wcwidth cp = Width.wcwidth cp ∧ RB.Utf8.wcwidth cp = Width.wcwidthSpec cp :=
+  ⟨RB.Utf8.wcwidth_eq cp, (RB.Utf8.wcwidth_eq cp).trans (Props.C07.wcwidth_eq_spec cp)⟩
+
+/-- **The columns of `text_cellwise` and `cursor_advances_text` are C07's columns.**  The string can be scanned
+    into characters `cs` in the sense of C07 (`Props.C07.Scans`; by `Props.C07.scans_sound` each `c ∈ cs` is what
+    the decoder finds at its offset, with `c.w = wcwidth c.cp ≥ 0`); the render buffer accepts the text exactly if
+    that scan reaches the end of the string, and then `n` in `Utf8.stringColumns s = some n` is the sum of the
+    widths of its characters. -/
+theorem text_columns_are_c07 (s : List UInt8) :
+    ∃ cs t, Props.C07.Scans (RB.Utf8.memOf s) (s.length + 1) (some s.length) Tickit.Utf8.Pos.zero cs t ∧
+      RB.Utf8.stringColumns s = (if t = .eof then some ((cs.map (·.w)).sum) else none) :=
+  RB.Utf8.stringColumns_c07 s
 
 /-! ### facts regenerated from the C source on every run (`bin/extract.d/25_rbwidth.py` → `Gen/RBWidth.lean`) -/
 
